@@ -21,6 +21,7 @@ import (
 type C10Case struct {
 	Script
 	Reuse bool `json:"reuse"` // the application reuses one message object for all its sends
+	Prior *Script `json:"prior,omitempty"` // an earlier logged-on session on the same stores, after which the application reset both counters (a new trading day): the numbers start again at 1 and the store must answer with the NEW messages
 	Stamp bool `json:"stamp"` // an application outgoing handler stamps every message that has a Text field (the documented use of HandleOutgoing): what goes out first, and is stored, carries the stamp
 }
 
@@ -79,9 +80,23 @@ func genC10(t *rapid.T) *C10Case {
 		}
 	}
 	c.MaxHB = g.maxHB
+	if !c.Reuse && rapid.IntRange(0, 4).Draw(t, "withPrior") == 0 {
+		pg := &hgen{t: t, cfg: cfg, inSeq: 1}
+		p := &Script{Cfg: cfg}
+		p.Steps = append(p.Steps, rig.Step{Op: "in", In: pg.goodLogon(0)})
+		for i := rapid.IntRange(1, 12).Draw(t, "priorSends"); i > 0; i-- {
+			if rapid.IntRange(0, 3).Draw(t, "priorKind") == 0 {
+				p.Steps = append(p.Steps, rig.Step{Op: "in", In: pg.testRequest(fmt.Sprintf("old-t%d", i))})
+			} else {
+				p.Steps = append(p.Steps, rig.Step{Op: "send", ID: fmt.Sprintf("old-%d", i)})
+			}
+		}
+		p.MaxHB = pg.maxHB
+		c.Prior = p
+	}
 	c.Stamp = !c.Reuse && rapid.IntRange(0, 3).Draw(t, "stamp") == 0
 	// a message store that keeps its messages per session identity (the StorageID it is given)
-	c.Cfg.PartitionStore = rapid.IntRange(0, 2).Draw(t, "partitionStore") == 0
+	c.Cfg.PartitionStore = c.Prior == nil && rapid.IntRange(0, 2).Draw(t, "partitionStore") == 0
 	return c
 }
 
@@ -98,6 +113,18 @@ func checkC10(c *C10Case, rec *evid.Rec) (vs []pbt.Violation) {
 	if c.Reuse {
 		shared := rig.NewApp("shared")
 		hooks.AppMessage = func(st *rig.Step) messages.Message { return shared }
+	}
+	if c.Prior != nil {
+		inner := memory.NewStorage()
+		ptr := rig.RunDirect(outerT, c.Prior.Cfg, c.Prior.Steps, &rig.Hooks{Inner: inner}, c.Prior.MaxHB)
+		if ptr.Trouble != "" {
+			return []pbt.Violation{pbt.V("harness", "prior session: %s", ptr.Trouble)}
+		}
+		// the application starts the numbering afresh
+		_ = inner.ResetSeqNum(fix.StorageID{Side: fix.Outgoing})
+		_ = inner.ResetSeqNum(fix.StorageID{Side: fix.Incoming})
+		hooks.Inner = inner
+		rec.Hist("store-reused-after-counter-reset")
 	}
 	tr := rig.RunDirect(outerT, c.Cfg, c.Steps, hooks, c.MaxHB)
 	if tr.Trouble != "" {
